@@ -143,12 +143,24 @@ def call_ext(I, st, f, args, kw, frame, node):
                 if not rest:
                     return [(s, not want)]
                 res = []
-                for (s2, x) in I.force(s, rest[0]):
+                head = rest[0]
+                opt = None
+                if type(head).__name__ == 'Opt':
+                    opt, head = head, head.value
+                for (s2, x) in I.force(s, head):
                     for (s3, b) in truth_value(I, s2, x, frame, node):
-                        if b == want:
+                        if b != want:
+                            res.extend(rec(s3, rest[1:]))
+                        elif opt is None:
                             res.append((s3, want))
                         else:
-                            res.extend(rec(s3, rest[1:]))
+                            # the element decides the result only if the word is really there
+                            from .loops import PSTATUS
+                            for (s4, there) in I.decide(s3, opt.key_, PSTATUS, opt.allowed):
+                                if there:
+                                    res.append((s4, want))
+                                else:
+                                    res.extend(rec(s4, rest[1:]))
                 return res
             out.extend(rec(s0, elems))
         return out
